@@ -6,6 +6,12 @@
 //!   c08.params_eq_const <n> <modulus>             from_const_params == new (fixed), (boxed)
 //!   c08.redc <n> <lower> <upper> <modulus> <k>    public `montgomery_reduction`
 //!   c08.mul_mod <kind> <n> <a> <b> <p>            `Uint::mul_mod` / `BoxedUint::mul_mod`
+//! crate-internal functions through `crypto_bigint::verif_hooks`:
+//!   c08.hook.amm <n> <x> <y> <m> <k>              `almost_montgomery_mul` on a zeroed `z` (ANY x, y < B^n), prints z
+//!   c08.hook.amm_by_one <n> <x> <m> <k>           `almost_montgomery_mul_by_one`
+//!   c08.hook.redc_inner <n> <lower> <upper> <m> <k>   `montgomery_reduction_inner`, prints `upper meta_carry`
+//!   c08.hook.params <kind> <n> <modulus>          the private fields through `verif_fields()` (kinds as `c08.params`
+//!                                                 except `const`), same line format as `c08.params`
 //!
 //! NOTE: `core::ops::{Add, Sub, Mul, Neg}` are deliberately NOT imported, so `<T>::add(&a, &b)` is the
 //! inherent method and `a + b` the operator impl.
@@ -13,8 +19,10 @@ use crate::util::*;
 use crypto_bigint::modular::{
     BoxedMontyForm, BoxedMontyParams, ConstMontyForm, ConstMontyParams, MontyForm, MontyParams, montgomery_reduction,
 };
+use crypto_bigint::verif_hooks as hooks;
 use crypto_bigint::{
-    BoxedUint, Concat, Integer, Monty, MontyMultiplier, NonZero, Odd, Split, Square, SquareAssign, Uint, impl_modulus,
+    BoxedUint, Concat, Integer, Limb, Monty, MontyMultiplier, NonZero, Odd, Split, Square, SquareAssign, Uint,
+    impl_modulus,
 };
 use std::panic::{AssertUnwindSafe, catch_unwind};
 use subtle::ConditionallySelectable;
@@ -568,8 +576,96 @@ where
     Some(uhex(&arg!(uint::<N>(a)).mul_mod(&arg!(uint::<N>(b)), &arg!(p))))
 }
 
+// ------------------------------------------------------------------ hooks
+
+fn limbs_of(s: &str, n: usize) -> Option<Vec<Limb>> {
+    Some(hex_words(s, n)?.into_iter().map(Limb).collect())
+}
+fn limbs_hex(l: &[Limb]) -> String {
+    words_hex(&l.iter().map(|x| x.0).collect::<Vec<_>>())
+}
+
+fn hook_amm(n: usize, x: &str, y: Option<&str>, m: &str, k: &str) -> Option<String> {
+    if n == 0 || n > 128 {
+        return Some("unsupported-width".to_string());
+    }
+    let (x, m, k) = (arg!(limbs_of(x, n)), arg!(limbs_of(m, n)), arg!(limb(k)));
+    let mut z = vec![Limb::ZERO; n];
+    match y {
+        Some(y) => hooks::almost_montgomery_mul(&mut z, &x, &arg!(limbs_of(y, n)), &m, k),
+        None => hooks::almost_montgomery_mul_by_one(&mut z, &x, &m, k),
+    }
+    Some(limbs_hex(&z))
+}
+
+fn hook_redc_inner(n: usize, lo: &str, hi: &str, m: &str, k: &str) -> Option<String> {
+    if n == 0 || n > 128 {
+        return Some("unsupported-width".to_string());
+    }
+    let (mut lower, mut upper) = (arg!(limbs_of(lo, n)), arg!(limbs_of(hi, n)));
+    let meta = hooks::montgomery_reduction_inner(&mut upper, &mut lower, &arg!(limbs_of(m, n)), arg!(limb(k)));
+    Some(format!("{} {}", limbs_hex(&upper), lhex(meta)))
+}
+
+fn fields_line_fixed<const N: usize>(p: &MontyParams<N>) -> String {
+    let (one, r2, r3, k, lz) = p.verif_fields();
+    format!("mod={} one={} r2={} r3={} k={} lz={}", uhex(p.modulus().as_ref()), uhex(&one), uhex(&r2), uhex(&r3), lhex(k), lz)
+}
+fn fields_line_boxed(p: &BoxedMontyParams) -> String {
+    let (one, r2, r3, k, lz) = p.verif_fields();
+    format!("mod={} one={} r2={} r3={} k={} lz={}", bhex(p.modulus().as_ref()), bhex(one), bhex(r2), bhex(r3), lhex(k), lz)
+}
+
+fn hook_params_dyn<const N: usize, const W: usize>(kind: &str, m: &str) -> Option<String>
+where
+    Uint<N>: Concat<Output = Uint<W>>,
+    Uint<W>: Split<Output = Uint<N>>,
+{
+    let modulus: Option<Odd<Uint<N>>> = Odd::new(arg!(uint::<N>(m))).into();
+    let modulus = arg!(modulus);
+    let p = if kind == "dynv" { MontyParams::new_vartime(modulus) } else { MontyParams::new(modulus) };
+    // the derived `Debug` text (what `c08.params` reads) must show the same fields
+    if params_line(&format!("{p:?}")) != Some(fields_line_fixed(&p)) {
+        return Some("debug-text-differs-from-fields".to_string());
+    }
+    Some(fields_line_fixed(&p))
+}
+
+fn hook_params_boxed(kind: &str, n: usize, m: &str) -> Option<String> {
+    let modulus: Option<Odd<BoxedUint>> = Odd::new(arg!(boxed(m, n))).into();
+    let modulus = arg!(modulus);
+    let p = if kind == "boxedv" { BoxedMontyParams::new_vartime(modulus) } else { BoxedMontyParams::new(modulus) };
+    if params_line(&format!("{p:?}")) != Some(fields_line_boxed(&p)) {
+        return Some("debug-text-differs-from-fields".to_string());
+    }
+    Some(fields_line_boxed(&p))
+}
+
+struct HookParamsConst<'a>(&'a str);
+impl ConstVisitor for HookParamsConst<'_> {
+    fn visit<P: ConstMontyParams<N>, const N: usize>(self) -> Option<String> {
+        match self.0 {
+            "dynfromconst" => Some(fields_line_fixed(&MontyParams::<N>::from_const_params::<P>())),
+            "boxedfromconst" => Some(fields_line_boxed(&BoxedMontyParams::from_const_params::<N, P>())),
+            _ => Some(BAD.to_string()),
+        }
+    }
+}
+
 pub fn dispatch(op: &str, a: &[&str]) -> Option<String> {
     match (op, a) {
+        ("c08.hook.amm", [n, x, y, m, k]) => hook_amm(arg!(dec(n)), x, Some(y), m, k),
+        ("c08.hook.amm_by_one", [n, x, m, k]) => hook_amm(arg!(dec(n)), x, None, m, k),
+        ("c08.hook.redc_inner", [n, lo, hi, m, k]) => hook_redc_inner(arg!(dec(n)), lo, hi, m, k),
+        ("c08.hook.params", [kind, n, m]) => {
+            let n = arg!(dec(n));
+            match *kind {
+                "dyn" | "dynv" => with_nw!(n, hook_params_dyn, kind, m),
+                "boxed" | "boxedv" => hook_params_boxed(kind, n, m),
+                "dynfromconst" | "boxedfromconst" => with_const_modulus(n, m, HookParamsConst(kind)),
+                _ => Some(BAD.to_string()),
+            }
+        }
         ("c08.hist", [kind, n, m, ops]) => {
             let n = arg!(dec(n));
             let steps = arg!(parse_steps(ops));
